@@ -7,7 +7,10 @@ Ties: the two character-level functions are TRANSLATED from the source of `_inde
 gen_stripInlineComment); the same two also run against the real functions on random strings; the model's
 forest (incl. silently dropped lines) vs the nesting of the real IR and the hook's record of skipped lines, on generated
 scripts under random layouts — including the layouts that trigger the known defects.
-Oracle: byte-identical firmware for every meaning-preserving re-layout; every skipped line is benign."""
+Oracle: byte-identical firmware for every meaning-preserving re-layout; every skipped line is benign; scripts whose blocks (branches of
+if/elif/else chains, for bodies — any arm, any depth, setup and main loop) consist only of lines without device meaning (pass, host-only print,
+bare string, comment) are compiled with g++ and run against CPython for 8 passes of the main loop: a benign LINE may vanish, the HEADER that
+owns it may not (`Hollow` / `hollow_bodies`, end-to-end through the emitter, which the IR-level forest tie does not see)."""
 from __future__ import annotations
 
 import importlib
@@ -27,6 +30,7 @@ TRUSTED = [
     "six ASCII blanks, str = List Char; a source outside the subset is reported as a broken obligation); the character-level differential tie exercises the same two functions "
     "independently of the translator",
     "hook REDUINO_VERIF=1 in parser.py (records the lines that fall through `# unknown -> ignore` and the skipped print calls)",
+    "hollow-body scripts: g++ 12 + harness/mockcore (Serial.println trace) and CPython running the same script against the host SerialMonitor",
 ]
 
 BENIGN = re.compile(r"^(import\s|from\s.+\simport\s|pass$|global\s|print\(|\"\"\"|'''|\"[^\"]*\"$)")
@@ -240,6 +244,112 @@ def lookalikes(ctx):
             ctx.fail("account:lookalike-identifier", f"a statement with an identifier that merely looks like a directive/keyword is not carried out: firmware {b} vs Python {a}", {"script": src})
 
 
+# ------------------------------------------------------------------------------------------------ bodies without device meaning
+class Hollow:
+    """random scripts whose blocks may consist ONLY of lines that have no meaning on the device (pass, host-only print, a bare string,
+    a comment next to one of these).  Such a line may be dropped — the header that owns it may not: `elif c: pass` still decides that the
+    later alternatives do not run.  Conditions depend on a fixed `x` (setup) and on `level`, which counts the passes of the main loop, so
+    that every alternative of a chain is reached on some pass."""
+
+    PASSES = 8
+
+    def __init__(self, rng):
+        self.rng = rng
+        self.n = 100
+        self.k = 0
+
+    def tag(self):
+        self.n += 1
+        return self.n
+
+    def cond(self, var):
+        r = self.rng
+        v = r.randint(0, self.PASSES - 1)
+        return r.choice([f"{var} > {v}", f"{var} < {v}", f"{var} == {v}", f"{var} != {v}", f"{var} >= {v}", f"{var} <= {v}",
+                         f"{v} < {var}", f"{var} + 1 > {v}", f"not {var} > {v}"])
+
+    def hollow_body(self, pad):
+        r = self.rng
+        out = []
+        for _ in range(r.randint(1, 2)):
+            k = r.randrange(5)
+            if k == 0:
+                out += [pad + "pass"]
+            elif k == 1:
+                out += [pad + "# nothing to do here", pad + "pass"]
+            elif k == 2:
+                out += [pad + f"print(\"host only {self.tag()}\")"]
+            elif k == 3:
+                out += [pad + "pass  # dead band"]
+            else:
+                out += [pad + f"\"hold {self.tag()}\""]
+        return out
+
+    def block(self, depth, d, var, nmax=3):
+        r = self.rng
+        pad = "    " * d
+        out = []
+        for _ in range(r.randint(1, nmax)):
+            q = r.random()
+            if depth <= 0 or q < 0.35:
+                out.append(pad + f"mon.write({self.tag()})")
+            elif q < 0.85:
+                arms = ["if"] + ["elif"] * r.choice([0, 1, 1, 2, 3]) + (["else"] if r.random() < 0.7 else [])
+                for a in arms:
+                    out.append(pad + ("else:" if a == "else" else f"{a} {self.cond(var)}:"))
+                    out += self.hollow_body(pad + "    ") if r.random() < 0.4 else self.block(depth - 1, d + 1, var, 2)
+            else:
+                self.k += 1
+                out.append(pad + f"for i{self.k} in range({r.randint(1, 3)}):")
+                out += self.hollow_body(pad + "    ") if r.random() < 0.25 else self.block(depth - 1, d + 1, var, 2)
+        return out
+
+    def script(self):
+        r = self.rng
+        lines = ["from Reduino.Communication import SerialMonitor", "mon = SerialMonitor(9600)", f"x = {r.randint(0, self.PASSES - 1)}", "level = 0"]
+        lines += self.block(2, 0, "x", 3)
+        lines += ["while True:"] + self.block(2, 1, "level", 3) + ["    level = level + 1"]
+        return "\n".join(lines) + "\n"
+
+
+def hollow_bodies(ctx):
+    """end-to-end: the emitted sketch, compiled and run for PASSES passes of loop(), writes what CPython writes for the same script"""
+    import contextlib
+    import io
+    import random
+    import pyoracle
+    rng = random.Random(f"{ctx.seed}:C07:hollow")          # a stream of its own: the older generators keep their sequences
+    srcs = [Hollow(rng).script() for _ in range(ctx.n(80, 1200))]
+    outs = [cxx.transpile(s) for s in srcs]
+    jobs = [(cpp, Hollow.PASSES, "") for cpp, e in outs if cpp is not None]
+    it = iter(cxx.run_many(ctx, jobs))
+    for src, (cpp, exc) in zip(srcs, outs):
+        ctx.case("hollow:" + src, nontrivial=True)
+        if cpp is None:
+            if isinstance(exc, (ValueError, SyntaxError)):
+                ctx.count("hollow:rejected")                # rejected with a diagnostic: accounted for
+            else:
+                ctx.fail("account:hollow-body-internal-error", f"{exc!r}", {"script": src})
+            continue
+        res = next(it)
+        if res.compile_error or not res.ok:
+            ctx.fail("account:hollow-body-does-not-compile", f"{(res.compile_error or res.stderr)[:300]}", {"script": src})
+            continue
+        with contextlib.redirect_stdout(io.StringIO()):
+            ev, err = pyoracle.run_script(src, Hollow.PASSES)
+        if err is not None:
+            raise common.ToolFailure(f"generated script fails under CPython: {err!r}\n{src}")
+        ctx.cov["traces_validated_against_impl"] += 1
+        ctx.count("hollow:run")
+        a = [e[1] for e in ev if e[0] == "w"]
+        b = [e[1] for e in pyoracle.fw_events(res.trace) if e[0] == "w"]
+        if a != b:
+            k = next((i for i, (p, q) in enumerate(zip(a, b)) if p != q), min(len(a), len(b)))
+            ctx.fail("account:block-header-lost-with-hollow-body",
+                     f"a block whose body has no device meaning changes which statements run: firmware writes {b[max(0, k - 2):k + 3]} where Python writes {a[max(0, k - 2):k + 3]} (index {k})",
+                     {"script": src, "passes": Hollow.PASSES, "python_writes": a, "firmware_writes": b, "firmware": cpp})
+
+
 def run(ctx: Ctx) -> int:
     ctx.prove(["Reduino.Props.C07", "Reduino.GenOb.Layout"])
     common.fresh_import()
@@ -346,8 +456,11 @@ def run(ctx: Ctx) -> int:
         bad = [e for e in P._VERIF_SKIP_LOG if not BENIGN.match(e[3].strip())]
         if bad and not rejected:
             ctx.fail(key, f"{name}: line {bad[0][3].strip()!r} disappears from the firmware without a diagnostic", {"script": head + body})
+    hollow_bodies(ctx)
     lookalikes(ctx)
     ctx.cov["rule"] = ("random strings over quotes/escapes/#/blanks for the character-level functions; random block-structured scripts (if/elif/else, while, for, main loop, "
                        "depth <= 2) whose every line carries a tag, rendered under random layouts: indent unit 1-8 or tabs, blank lines, comment lines (same column in-domain, "
-                       "any column otherwise), trailing comments (on headers only out-of-domain), trailing whitespace, spaces inside calls")
+                       "any column otherwise), trailing comments (on headers only out-of-domain), trailing whitespace, spaces inside calls; random scripts with if/elif*/else chains "
+                       "(0-3 elif, conditions over a setup constant and the pass counter) and for loops in which any block may hold only pass / print / bare string / comment lines, "
+                       "emitted C++ run for 8 passes against CPython")
     return ctx.finish(TRUSTED, search=None)
